@@ -1131,6 +1131,28 @@ def check_param_forwarding(prog, rep, callers=None, rule='P-forward-name'):
                     rep.ok(rule, fn.qualname, construct)
                     continue
                 key = (fn.qualname, callee.qualname, p)
+                if key not in FORWARD_ALLOWED and \
+                        callee.qualname.split('.')[-1].startswith('_') and \
+                        callee.module is fn.module:
+                    # a private helper that hands its own parameter p on to
+                    # the routine the table allows: the same omission
+                    from . import roles as _roles
+                    for c2 in ast.walk(callee.node):
+                        if not isinstance(c2, ast.Call):
+                            continue
+                        try:
+                            tgt = _roles.callee_of(prog, callee.module, c2)
+                            amap = _roles.arg_names(prog, callee.module, c2)
+                        except Exception:
+                            tgt, amap = None, None
+                        if tgt is None or not amap:
+                            continue
+                        a_ = amap.get(p)
+                        if isinstance(a_, ast.Name) and a_.id == p and \
+                                (fn.qualname, tgt.qualname, p) in \
+                                FORWARD_ALLOWED:
+                            key = (fn.qualname, tgt.qualname, p)
+                            break
                 cnt = seen[key] = seen.get(key, 0) + 1
                 lim = FORWARD_ALLOWED_COUNT.get(key[:2], 1)
                 if key in FORWARD_ALLOWED and cnt <= lim:
